@@ -92,7 +92,11 @@ def check_result(pb, settings, obs, exact=True, slack=None, lb_present=True, ub_
             else:
                 if not is_num(vec[dz][i]): V.append(("C08.finite", "%s[%d] = %s" % (dz, i, vec[dz][i])))
                 if not is_num(vec[ds][i]): V.append(("C08.finite", "%s[%d] = %s" % (ds, i, vec[ds][i])))
-    if V: return V
+    if any(c_ == "C08.finite" for c_, _ in V):
+        # a SOLVED result whose vectors hold a non-number (e.g. an infinite slack at a FINITE bound) is no certificate either
+        if status == "SOLVED": V.append(("C01.defined", "SOLVED but the returned vectors are not all numbers: %s" % V[0][1]))
+        return V
+    # (C08.absent alone does not stop the certificate oracle: stationarity is evaluated with the vectors as returned)
     tau_lt1 = Fr(settings.get("tau", "99/100")) < 1
     # signs (every stopping point that ran the initial point)
     for k in ("z",):
@@ -114,8 +118,9 @@ def check_result(pb, settings, obs, exact=True, slack=None, lb_present=True, ub_
     Gx = {i: sum(G[i][j] * x[j] for j in range(n)) for i in rows}
     ATy = [sum(A[i][j] * y[i] for i in range(p)) for j in range(n)]
     GTz = [sum(G[i][j] * z[i] for i in rows) for j in range(n)]
-    zl = [vec["z_lb"][i] if lb[i] is not None else Fr(0) for i in range(n)]
-    zu = [vec["z_ub"][i] if ub[i] is not None else Fr(0) for i in range(n)]
+    # the multipliers as returned (entries of absent bounds are exactly 0 in a correct result: C08.absent)
+    zl = [vec["z_lb"][i] if is_num(vec["z_lb"][i]) else Fr(0) for i in range(n)]
+    zu = [vec["z_ub"][i] if is_num(vec["z_ub"][i]) else Fr(0) for i in range(n)]
     c = [Fr(v) for v in pb["c"]]
     b = [Fr(v) for v in pb["b"]]
     h = {i: bound_val(pb["h"][i]) for i in rows}
@@ -208,6 +213,16 @@ def check_scaling(pb, obs, lb_present=True, ub_present=True):
         for i in range(len(a)):
             if a[i] <= 0: V.append(("C15.positive", "%s[%d] = %s" % (nm, i, a[i])))
             if a[i] * b[i] != 1: V.append(("C15.inverse", "%s[%d]*%s_inv[%d] = %s (slot %s)" % (nm, i, nm, i, a[i] * b[i], "active" if True else "")))
+    # accessor round trips computed by the driver on v = (2, 3, 4, ...): unscale_X(scale_X(v)) = v = scale_X(unscale_X(v))
+    for k_, val in obs.items():
+        if not (k_.startswith("rt.") or k_.startswith("tr.")): continue
+        got = [pf(val)] if k_.endswith(".cost") else pvec(val)
+        want = [Fr(3)] if k_.endswith(".cost") else [Fr(i + 2) for i in range(len(got))]
+        for i, (g_, w_) in enumerate(zip(got, want)):
+            if g_ != w_:
+                nm = k_.split(".", 1)[1]
+                V.append(("C15.roundtrip", "%s: %s_%s(%s_%s(v))[%d] = %s, expected %s" % (k_, "unscale" if k_[0] == "r" else "scale", nm, "scale" if k_[0] == "r" else "unscale", nm, i, g_, w_)))
+                break
     if V: return V
     rows, lb, ub = effective(dict(pb, lb=pb["lb"] if lb_present else None, ub=pb["ub"] if ub_present else None))
     P = symP(pb)
